@@ -1,6 +1,7 @@
 package main
 
 import (
+	"strconv"
 	"encoding/json"
 	"errors"
 	"fmt"
@@ -128,6 +129,9 @@ type parseResult struct {
 	printPanic string
 	digestHash uint64
 	digest     string
+	// bystander: the call never returned because another call's goroutine
+	// crashed the (simulated) process; there is nothing to compare.
+	bystander bool
 }
 
 func (p *parseResult) accepted() bool { return p.m != nil && p.err == nil && p.panicMsg == "" }
@@ -217,12 +221,30 @@ func corpusText(name string) (string, bool) {
 // and no concurrency; the driver runs this in its own process.
 func c12MakeRef() {
 	table := map[string]RefEntry{}
-	for _, cf := range corpus() {
+	skip := map[int]bool{}
+	for _, f := range strings.Split(*flagSkip, ",") {
+		if n, err := strconv.Atoi(strings.TrimSpace(f)); err == nil {
+			skip[n] = true
+		}
+	}
+	for ci, cf := range corpus() {
+		noteProgress(int64(ci))
+		if skip[ci] {
+			// Parsing or printing this text killed an earlier reference process (an
+			// unrecovered panic on a goroutine of the code under test): not accepted.
+			table[cf.Name] = RefEntry{}
+			continue
+		}
 		simrt.Load((&Tape{}).config())
 		simrt.SeamsOn(true, false)
 		var r *parseResult
 		cf := cf
-		simCall(func() { r = parseVia(cf.Name, cf.Text, "string", nil, "ref") })
+		if pan, msg := protect(func() {
+			simCall(func() { r = parseVia(cf.Name, cf.Text, "string", nil, "ref") })
+		}); pan || r == nil {
+			// (a goroutine started by the code under test panicked)
+			r = &parseResult{panicMsg: msg}
+		}
 		simrt.SeamsOn(false, false)
 		e := RefEntry{Accepted: r.accepted() && r.textOK}
 		if e.Accepted {
@@ -304,13 +326,17 @@ func c12Compare(t C12Task, r *parseResult, text string) (class, sig, detail stri
 		// Recompute the reference text in-process for the diagnostic only.
 		simrt.SeamsOn(false, false)
 		var rr *parseResult
-		simCall(func() { rr = parseVia(t.Target, text, "string", nil, "diag") })
+		if c, _ := simCallSafe(func() { rr = parseVia(t.Target, text, "string", nil, "diag") }); c || rr == nil {
+			rr = &parseResult{}
+		}
 		return "text-differs", "String()", fmt.Sprintf("%s parsed via %s prints differently from the reference: %s", t.Target, t.Entry, firstDiff(r.text, rr.text))
 	}
 	if hex64(r.digestHash) != ref.DigestHash {
 		simrt.SeamsOn(false, false)
 		var rr *parseResult
-		simCall(func() { rr = parseVia(t.Target, text, "string", nil, "diag") })
+		if c, _ := simCallSafe(func() { rr = parseVia(t.Target, text, "string", nil, "diag") }); c || rr == nil {
+			rr = &parseResult{}
+		}
 		return "digest-differs", "structure", fmt.Sprintf("%s parsed via %s: same text but a different object graph: %s", t.Target, t.Entry, firstDiff(r.digest, rr.digest))
 	}
 	return "", "", ""
@@ -443,12 +469,15 @@ func c12Run(sc *C12Scenario) *c12Outcome {
 	simrt.SeamsOn(true, true)
 	for i, p := range sc.Prior {
 		i, p := i, p
-		simCall(func() { doPrior(p, i) })
+		simCallSafe(func() { doPrior(p, i) })
 	}
 	results := make([]*parseResult, len(sc.Tasks))
 	if len(sc.Tasks) == 1 {
 		t := sc.Tasks[0]
-		simCall(func() { results[0] = parseVia(t.Target, texts[0], t.Entry, t.Reader, "seq") })
+		if c, msg := simCallSafe(func() { results[0] = parseVia(t.Target, texts[0], t.Entry, t.Reader, "seq") }); c || results[0] == nil {
+			// (a goroutine started by the parse or the print panicked)
+			results[0] = &parseResult{panicMsg: msg}
+		}
 		out.stats = simrt.Snapshot()
 	} else {
 		fns := make([]func(), len(sc.Tasks))
@@ -478,6 +507,35 @@ func c12Run(sc *C12Scenario) *c12Outcome {
 			return out
 		}
 		for i, r := range res {
+			if cp, isCrash := r.Panic.(simrt.CrashPanic); isCrash && i < len(sc.Tasks) {
+				// The parse started a goroutine that panicked: the call never returns
+				// (outcome "panic", compared with the reference like any other).
+				if results[i] == nil {
+					if cp.Culprit {
+						results[i] = &parseResult{panicMsg: cp.String()}
+					} else {
+						// died with the process because of another call: no outcome
+						results[i] = &parseResult{panicMsg: cp.String(), bystander: true}
+					}
+				}
+				continue
+			}
+			if r.Spawned && r.Panic != nil {
+				// the goroutine whose panic ended the run (its callers carry a CrashPanic)
+				crashedCaller := false
+				for k := range sc.Tasks {
+					if _, isCrash := res[k].Panic.(simrt.CrashPanic); isCrash {
+						crashedCaller = true
+					}
+				}
+				if crashedCaller {
+					continue
+				}
+				simrt.SeamsOn(false, false)
+				out.class, out.sig = "panic", "goroutine of the code under test panicked after the calls had returned"
+				out.detail = fmt.Sprintf("%v\n%s", r.Panic, clip(r.Stack, 1200))
+				return out
+			}
 			if r.Panic != nil {
 				simrt.SeamsOn(false, false)
 				out.class, out.sig = "harness-error", "task panic"
@@ -493,7 +551,9 @@ func c12Run(sc *C12Scenario) *c12Outcome {
 	if sc.Canary != "" {
 		if tx, ok := corpusText(sc.Canary); ok {
 			canaryText = tx
-			simCall(func() { canary = parseVia(sc.Canary, tx, "string", nil, "canary") })
+			protect(func() {
+				simCall(func() { canary = parseVia(sc.Canary, tx, "string", nil, "canary") })
+			})
 		}
 	}
 	simrt.SeamsOn(false, false)
@@ -505,6 +565,9 @@ func c12Run(sc *C12Scenario) *c12Outcome {
 		if r == nil {
 			out.class, out.sig, out.detail = "harness-error", "no result", "a parse task produced no result"
 			return out
+		}
+		if r.bystander {
+			continue
 		}
 		if r.readerFail {
 			out.readerFaults++
@@ -673,6 +736,7 @@ func c12Search() {
 			sum.Counters["sync.Pool gets after a simulated GC"] += s.PoolDrops
 		}
 		sum.Counters["context switches"] += s.Switches
+		countChans(sum, s)
 		sum.Counters["statements executed under the scheduler"] += s.Steps
 		if sc.HeapKB > 0 {
 			sum.Counters["runs after heap perturbation + GC"]++
